@@ -1819,4 +1819,204 @@ def aliasLoop : Query → Except Err Response := fun q =>
 example : stubResolve aliasLoop ⟨nA, T_A⟩ = (false, 8) := by decide +kernel
 end Ex
 
+/-! ## 11. the fuel of the two recursive entry points is never exhausted
+
+`nsPoolFuel` / `resolveFuel` recurse on a fuel argument only to satisfy Lean; the nesting is cut by
+the code's own depth counter.  More fuel than `limit + 1` never changes any result (so the value
+computed by the entry points is the value of the unbounded recursion, and the `fuel` error is
+never the reason for an outcome). -/
+
+section fuel
+variable {cfg : Config} {net : Net}
+
+theorem pickPools_congr {r1 r2 : NsRec} (zone : Name) (depth : Nat) (pool : Pool)
+    (h : ∀ n st, r1 n depth st = r2 n depth st) :
+    ∀ (ns : List Name) (st : St),
+      pickPools r1 zone depth pool ns st = pickPools r2 zone depth pool ns st := by
+  intro ns
+  induction ns with
+  | nil => intro st; rfl
+  | cons n ns ih =>
+    intro st
+    simp only [pickPools, h, ih]
+
+theorem buildPool_congr {r1 r2 : NsRec} (zone : Name) (depth : Nat) (pool : Pool)
+    (h : ∀ n st, r1 n depth st = r2 n depth st) (resp : Response) (st : St) :
+    buildPool cfg net r1 zone depth pool resp st = buildPool cfg net r2 zone depth pool resp st := by
+  simp only [buildPool, appendIps, pickPools_congr zone depth pool h]
+
+theorem nsStep_congr {r1 r2 : NsRec} (zone : Name) (depth : Nat) (pool : Pool)
+    (h : depth + 1 < cfg.nsRecursionLimit → ∀ n st, r1 n (depth + 1) st = r2 n (depth + 1) st)
+    (st : St) :
+    nsStep cfg net r1 zone depth pool st = nsStep cfg net r2 zone depth pool st := by
+  by_cases hl : depth + 1 < cfg.nsRecursionLimit
+  · simp only [nsStep, buildPool_congr zone (depth + 1) pool (h hl)]
+  · simp [nsStep, hl]
+
+theorem nsStep_depth (rec : NsRec) (zone : Name) (depth : Nat) (pool : Pool) (st : St)
+    (st' : St) (d' : Nat) (p' : Pool)
+    (h : nsStep cfg net rec zone depth pool st = (st', .next d' p')) : depth ≤ d' := by
+  unfold nsStep at h
+  split at h
+  · cases h; omega
+  · split at h
+    · cases h
+    · split at h
+      · split at h
+        · cases h
+        · cases h; omega
+      · split at h
+        · cases h; omega
+        · split at h
+          cases h; omega
+
+/-- the two recursive calls agree wherever the loop can still call them -/
+def NsAgree (L d : Nat) (r1 r2 : NsRec) : Prop :=
+  ∀ n d' st, d < d' → d' < L → r1 n d' st = r2 n d' st
+
+theorem nsLoop_congr {r1 r2 : NsRec} :
+    ∀ (zs : List Name) (d : Nat) (pool : Pool) (st : St), NsAgree cfg.nsRecursionLimit d r1 r2 →
+      nsLoop cfg net r1 zs d pool st = nsLoop cfg net r2 zs d pool st := by
+  intro zs
+  induction zs with
+  | nil => intro d pool st _; rfl
+  | cons z zs ih =>
+    intro d pool st h
+    have hs := nsStep_congr (cfg := cfg) (net := net) z d pool
+      (fun hl n st => h n (d + 1) st (by omega) hl) st
+    unfold nsLoop
+    rw [hs]
+    split
+    · rfl
+    · rename_i st1 d1 p1 heq
+      have hd := nsStep_depth (cfg := cfg) (net := net) r2 z d pool st st1 d1 p1 heq
+      exact ih d1 p1 st1 (fun n d' st hlt hL => h n d' st (by omega) hL)
+
+theorem nsPoolFuel_succ : ∀ f, 1 ≤ f → ∀ d, cfg.nsRecursionLimit + 1 ≤ f + d → ∀ n st,
+    nsPoolFuel cfg net (f + 1) n d st = nsPoolFuel cfg net f n d st := by
+  intro f
+  induction f with
+  | zero => intro h; omega
+  | succ f ih =>
+    intro _ d hd n st
+    show nsLoop cfg net (nsPoolFuel cfg net (f + 1)) (zonesOf n) d (rootPool cfg) st =
+      nsLoop cfg net (nsPoolFuel cfg net f) (zonesOf n) d (rootPool cfg) st
+    apply nsLoop_congr
+    intro n' d' st' hlt hL
+    by_cases hf : 1 ≤ f
+    · exact ih hf d' (by omega) n' st'
+    · omega
+
+/-- **`ns_fuel_sufficient`**: with any amount of extra fuel `ns_pool_for_name` computes the same
+result as with the `ns_recursion_limit + 1` the model uses. -/
+theorem ns_fuel_sufficient (k : Nat) (n : Name) (d : Nat) (st : St) :
+    nsPoolFuel cfg net (cfg.nsRecursionLimit + 1 + k) n d st = nsPoolForName cfg net n d st := by
+  induction k with
+  | zero => rfl
+  | succ k ih =>
+    rw [← ih]
+    exact nsPoolFuel_succ (cfg.nsRecursionLimit + 1 + k) (by omega) d (by omega) n st
+
+/-! the same for `resolve` -/
+
+theorem chaseLoop_congr {r1 r2 : ResRec} (resp : Response) (qtype depth : Nat)
+    (h : ∀ q st, r1 q depth st = r2 q depth st) :
+    ∀ (rs chain : List Record) (st : St),
+      chaseLoop r1 resp qtype depth rs chain st = chaseLoop r2 resp qtype depth rs chain st := by
+  intro rs
+  induction rs with
+  | nil => intro chain st; rfl
+  | cons r rs ih =>
+    intro chain st
+    simp only [chaseLoop, h, ih]
+
+theorem resolveCnames_congr {r1 r2 : ResRec} (resp : Response) (q : Query) (depth : Nat)
+    (h : depth + 1 < cfg.recursionLimit → ∀ q st, r1 q (depth + 1) st = r2 q (depth + 1) st)
+    (st : St) :
+    resolveCnames cfg r1 resp q depth st = resolveCnames cfg r2 resp q depth st := by
+  by_cases hl : depth + 1 < cfg.recursionLimit
+  · simp only [resolveCnames, chaseLoop_congr resp q.qtype (depth + 1) (h hl)]
+  · simp [resolveCnames, hl]
+
+def ResAgree (L d : Nat) (r1 r2 : ResRec) : Prop :=
+  ∀ q d' st, d < d' → d' < L → r1 q d' st = r2 q d' st
+
+/-- the depth `ns_pool_for_name` hands back is never below the one it was given -/
+theorem nsLoop_depth (rec : NsRec) : ∀ (zs : List Name) (d : Nat) (pool : Pool) (st : St)
+    (st' : St) (d' : Nat) (p' : Pool),
+    nsLoop cfg net rec zs d pool st = (st', .ok (d', p')) → d ≤ d' := by
+  intro zs
+  induction zs with
+  | nil => intro d pool st st' d' p' h; simp only [nsLoop] at h; cases h; omega
+  | cons z zs ih =>
+    intro d pool st st' d' p' h
+    unfold nsLoop at h
+    split at h
+    · cases h
+    · rename_i st1 d1 p1 heq
+      have := nsStep_depth (cfg := cfg) (net := net) rec z d pool st st1 d1 p1 heq
+      have := ih d1 p1 st1 st' d' p' h
+      omega
+
+theorem nsPoolForName_depth (n : Name) (d : Nat) (st st' : St) (d' : Nat) (p' : Pool)
+    (h : nsPoolForName cfg net n d st = (st', .ok (d', p'))) : d ≤ d' :=
+  nsLoop_depth _ _ _ _ _ _ _ _ h
+
+theorem resolveMiss_congr {r1 r2 : ResRec} (q : Query) (d : Nat) (st : St)
+    (h : ResAgree cfg.recursionLimit d r1 r2) :
+    resolveMiss cfg net r1 q d st = resolveMiss cfg net r2 q d st := by
+  unfold resolveMiss
+  dsimp only
+  split
+  · rfl
+  · rename_i st1 d1 pool heq
+    have hd := nsPoolForName_depth (cfg := cfg) (net := net) _ d st st1 d1 pool heq
+    split
+    · rfl
+    · rename_i st2 resp _
+      exact resolveCnames_congr resp q d1 (fun hl q' st' => h q' (d1 + 1) st' (by omega) hl) st2
+
+theorem resolveFuel_succ : ∀ f, 1 ≤ f → ∀ d, cfg.recursionLimit + 1 ≤ f + d → ∀ q st,
+    resolveFuel cfg net (f + 1) q d st = resolveFuel cfg net f q d st := by
+  intro f
+  induction f with
+  | zero => intro h; omega
+  | succ f ih =>
+    intro _ d hd q st
+    have hag : ResAgree cfg.recursionLimit d (resolveFuel cfg net (f + 1)) (resolveFuel cfg net f) := by
+      intro q' d' st' hlt hL
+      by_cases hf : 1 ≤ f
+      · exact ih hf d' (by omega) q' st'
+      · omega
+    have e1 : ∀ r, resolveCnames cfg (resolveFuel cfg net (f + 1)) r q d st =
+        resolveCnames cfg (resolveFuel cfg net f) r q d st :=
+      fun r => resolveCnames_congr r q d (fun hl q' st' => hag q' (d + 1) st' (by omega) hl) st
+    have e2 := resolveMiss_congr (cfg := cfg) (net := net) q d st hag
+    show (match rcGet st.rcache q with
+      | some (.error e) => ((st, .error e) : St × Except Err Response)
+      | some (.ok r) =>
+        if r.aa then resolveCnames cfg (resolveFuel cfg net (f + 1)) r q d st
+        else resolveMiss cfg net (resolveFuel cfg net (f + 1)) q d st
+      | none => resolveMiss cfg net (resolveFuel cfg net (f + 1)) q d st) =
+      (match rcGet st.rcache q with
+      | some (.error e) => ((st, .error e) : St × Except Err Response)
+      | some (.ok r) =>
+        if r.aa then resolveCnames cfg (resolveFuel cfg net f) r q d st
+        else resolveMiss cfg net (resolveFuel cfg net f) q d st
+      | none => resolveMiss cfg net (resolveFuel cfg net f) q d st)
+    simp only [e1, e2]
+
+/-- **`resolve_fuel_sufficient`**: with any amount of extra fuel `resolve` computes the same
+result as with the `recursion_limit + 1` the model uses. -/
+theorem resolve_fuel_sufficient (k : Nat) (q : Query) (d : Nat) (st : St) :
+    resolveFuel cfg net (cfg.recursionLimit + 1 + k) q d st =
+      resolveFuel cfg net (cfg.recursionLimit + 1) q d st := by
+  induction k with
+  | zero => rfl
+  | succ k ih =>
+    rw [← ih]
+    exact resolveFuel_succ (cfg.recursionLimit + 1 + k) (by omega) d (by omega) q st
+
+end fuel
+
 end HickoryVerif.C19
